@@ -1159,10 +1159,20 @@ func (ss *ServerSession) handleRequestInner(sc *ServerConn, req *base.Request) (
 					th.ClientPorts = inTH.ClientPorts
 					th.ServerPorts = &[2]int{sc.s.udpRTPListener.port(), sc.s.udpRTCPListener.port()}
 				} else {
+					// the stream might have been closed after the first SETUP request
+					mw := stream.medias[medi].multicastWriter
+					if mw == nil {
+						ss.propsMutex.Unlock()
+
+						return &base.Response{
+							StatusCode: base.StatusBadRequest,
+						}, liberrors.ErrServerStreamClosed{}
+					}
+
 					th.Delivery = new(headers.TransportDeliveryMulticast)
 					th.TTL = new(uint(127))
-					th.Destination2 = new(stream.medias[medi].multicastWriter.ip.String())
-					th.Ports = &[2]int{stream.medias[medi].multicastWriter.rtpPort, stream.medias[medi].multicastWriter.rtcpPort}
+					th.Destination2 = new(mw.ip.String())
+					th.Ports = &[2]int{mw.rtpPort, mw.rtcpPort}
 				}
 
 			default: // TCP
